@@ -11,7 +11,7 @@
 From Coq Require Import List NArith Bool.
 Import ListNotations.
 Require Import Aiuti.XLoop Aiuti.XLoopInv Aiuti.XLoopSafe Aiuti.XLoopLive Aiuti.XLoopProg Aiuti.XLoopK1
-               Aiuti.Case_C17 Aiuti.Case_C17_Complete Aiuti.Case_C17_Sound.
+               Aiuti.XLoopTerm Aiuti.Case_C17 Aiuti.Case_C17_Complete Aiuti.Case_C17_Sound.
 
 (* The target loop is never run by two threads at once: at any time at most one thread is
    inside L.run_forever; a pool thread that runs L (ensure_aw's borrower or loop_in_thread's
@@ -167,6 +167,28 @@ Theorem completes_unless_submitted_to_borrowed_loop :
     forall i, i < c_n c -> completedb s i = false -> penabled c s <> [].
 Proof. exact progress_log. Qed.
 Print Assumptions completes_unless_submitted_to_borrowed_loop.
+
+(* No livelock: along ANY accepted log the number of operations other than loop_in_thread's
+   spin (is_running() = false, sleep(0)) is at most 21 * #callers + 19 (every such operation
+   strictly increases a bounded potential).  So an execution that keeps taking non-spin
+   operations ends after boundedly many of them ... *)
+Theorem bounded_work :
+  forall c evs s, run c evs = Some s -> work evs <= 21 * c_n c + 19.
+Proof. exact work_le. Qed.
+Print Assumptions bounded_work.
+
+(* ... and where it ends — no non-spin operation enabled — every caller has completed,
+   provided nobody scheduled on a borrowed loop (always so in the own / loop_in_thread /
+   closed modes).  Together: ensure_aw calls complete, unless the loop_in_thread spin itself
+   never ends or K1's scenario occurs. *)
+Theorem quiescent_means_completed :
+  forall c evs s, run c evs = Some s -> no_foreign_submit_to_borrowed_loop s ->
+    penabled c s = [] -> forall i, i < c_n c -> completedb s i = true.
+Proof.
+  intros c evs s H NK Hq i Hi. destruct (completedb s i) eqn:E; auto.
+  exfalso. exact (progress_log c evs s H NK i Hi E Hq).
+Qed.
+Print Assumptions quiescent_means_completed.
 
 Theorem xsub_records_runner :
   forall c s i b s', step c s (TC i, OChk b) = Some s' ->
